@@ -1,0 +1,209 @@
+//go:build verif
+
+// Copyright (c) 2026 10X Genomics, Inc. All rights reserved.
+
+package syntax
+
+// Exports for the external verification harness (property C08, the goyacc
+// parser driver).  This file is only compiled with `-tags verif`.
+
+import (
+	"fmt"
+	"io"
+	"os"
+	"strconv"
+	"strings"
+	"sync"
+)
+
+// verifParseMu serializes VerifParseTrace: it changes the package variable
+// mmDebug and os.Stdout for the duration of one parse.
+var verifParseMu sync.Mutex
+
+// VerifParserConsts returns constants and table sizes of the generated parser.
+func VerifParserConsts() (last, private, flag, nstates, nprods int) {
+	return mmLast, mmPrivate, mmFlag, len(mmPact), len(mmR1)
+}
+
+// verifTokenNumber inverts mmTokname: the internal token number of a name
+// printed by the parser's debug output.
+func verifTokenNumber(name string) (int, bool) {
+	for i, n := range mmToknames {
+		if n != "" && n == name {
+			return i + 1, true
+		}
+	}
+	if strings.HasPrefix(name, "tok-") {
+		if k, err := strconv.Atoi(name[len("tok-"):]); err == nil {
+			return k, true
+		}
+	}
+	return 0, false
+}
+
+func verifStateNumber(name string) (int, bool) {
+	if !strings.HasPrefix(name, "state-") {
+		return 0, false
+	}
+	k, err := strconv.Atoi(name[len("state-"):])
+	return k, err == nil
+}
+
+// verifParseEvents turns the debug output of the generated parser into
+// normalized events:
+//
+//	char TOK in state-N               -> P<N>
+//	lex TOKNAME(CHAR)                 -> L<token number>/<CHAR>
+//	reduce K in:\n\tstate-N           -> R<K>@<N>
+//	state-N saw TOKNAME               -> E<N>/<token number>
+//	error recovery pops state N       -> X<N>
+//	error recovery discards TOKNAME   -> D<token number>
+//
+// A line which is none of these becomes `?<line>`.
+func verifParseEvents(out string) []string {
+	lines := strings.Split(out, "\n")
+	if n := len(lines); n > 0 && lines[n-1] == "" {
+		lines = lines[:n-1]
+	}
+	events := make([]string, 0, len(lines)+2)
+	unknown := func(l string) {
+		events = append(events, "?"+strings.ReplaceAll(l, " ", "_"))
+	}
+	for i := 0; i < len(lines); i++ {
+		l := lines[i]
+		switch {
+		case strings.HasPrefix(l, "char "):
+			j := strings.LastIndex(l, " in ")
+			if j < 0 {
+				unknown(l)
+				continue
+			}
+			if s, ok := verifStateNumber(l[j+len(" in "):]); ok {
+				events = append(events, "P"+strconv.Itoa(s))
+			} else {
+				unknown(l)
+			}
+		case strings.HasPrefix(l, "lex ") && strings.HasSuffix(l, ")"):
+			j := strings.LastIndex(l, "(")
+			if j < len("lex ") {
+				unknown(l)
+				continue
+			}
+			tok, ok := verifTokenNumber(l[len("lex "):j])
+			char, err := strconv.ParseUint(l[j+1:len(l)-1], 10, 64)
+			if !ok || err != nil {
+				unknown(l)
+				continue
+			}
+			events = append(events, "L"+strconv.Itoa(tok)+"/"+strconv.FormatUint(char, 10))
+		case strings.HasPrefix(l, "reduce ") && strings.HasSuffix(l, " in:"):
+			k, err := strconv.Atoi(l[len("reduce ") : len(l)-len(" in:")])
+			if err != nil || i+1 >= len(lines) || !strings.HasPrefix(lines[i+1], "\t") {
+				unknown(l)
+				continue
+			}
+			s, ok := verifStateNumber(lines[i+1][1:])
+			if !ok {
+				unknown(l)
+				continue
+			}
+			i++
+			events = append(events, "R"+strconv.Itoa(k)+"@"+strconv.Itoa(s))
+		case strings.HasPrefix(l, "error recovery pops state "):
+			k, err := strconv.Atoi(l[len("error recovery pops state "):])
+			if err != nil {
+				unknown(l)
+				continue
+			}
+			events = append(events, "X"+strconv.Itoa(k))
+		case strings.HasPrefix(l, "error recovery discards "):
+			tok, ok := verifTokenNumber(l[len("error recovery discards "):])
+			if !ok {
+				unknown(l)
+				continue
+			}
+			events = append(events, "D"+strconv.Itoa(tok))
+		case strings.HasPrefix(l, "state-") && strings.Contains(l, " saw "):
+			j := strings.Index(l, " saw ")
+			s, ok1 := verifStateNumber(l[:j])
+			tok, ok2 := verifTokenNumber(l[j+len(" saw "):])
+			if !ok1 || !ok2 {
+				unknown(l)
+				continue
+			}
+			events = append(events, "E"+strconv.Itoa(s)+"/"+strconv.Itoa(tok))
+		default:
+			unknown(l)
+		}
+	}
+	return events
+}
+
+// VerifParseTrace runs the generated parser on src the way yaccParseAny
+// does, with its debug output (mmDebug = level, 4 when level is not in 1..4)
+// captured and normalized (see verifParseEvents).  The last event is
+// `=<result>`, or `PANIC <message>` when the parser panicked (result is then
+// -1).  errLine, errCol and errToken are the scanner's location and token
+// after the parse (what mmLexError reports), gotError whether the parser
+// reported a syntax error (called mmLexInfo.Error).
+//
+// Not to be used concurrently with any other use of the parser in the same
+// process: mmDebug and os.Stdout are changed while it runs.
+func VerifParseTrace(src []byte, level int) (result int, events []string,
+	errLine, errCol int, errToken string, gotError bool) {
+	if level < 1 || level > 4 {
+		level = 4
+	}
+	verifParseMu.Lock()
+	defer verifParseMu.Unlock()
+
+	lexinfo := mmLexError{
+		info: mmLexInfo{
+			src: src,
+			pos: 0,
+			loc: SourceLoc{
+				Line: 1,
+				Col:  1,
+				File: &SourceFile{FileName: "verif.mro", FullPath: "verif.mro"},
+			},
+			intern: makeStringIntern(),
+		},
+	}
+
+	rd, wr, err := os.Pipe()
+	if err != nil {
+		return -1, []string{"PANIC os.Pipe: " + err.Error()}, 0, 0, "", false
+	}
+	collected := make(chan string, 1)
+	go func() {
+		b, _ := io.ReadAll(rd)
+		rd.Close()
+		collected <- string(b)
+	}()
+
+	var panicked interface{}
+	func() {
+		oldStdout, oldDebug := os.Stdout, mmDebug
+		defer func() {
+			os.Stdout, mmDebug = oldStdout, oldDebug
+			wr.Close()
+			panicked = recover()
+		}()
+		os.Stdout, mmDebug = wr, level
+		result = mmParse(&lexinfo.info)
+	}()
+	events = verifParseEvents(<-collected)
+	for _, e := range events {
+		if strings.HasPrefix(e, "E") {
+			gotError = true
+		}
+	}
+	if panicked != nil {
+		result = -1
+		events = append(events, fmt.Sprint("PANIC ", panicked))
+	} else {
+		events = append(events, "="+strconv.Itoa(result))
+	}
+	return result, events, lexinfo.info.loc.Line, lexinfo.info.loc.Col,
+		string(lexinfo.info.token), gotError
+}
